@@ -153,9 +153,48 @@ end module um
 """
 
 
+SH3 = """
+module h3
+contains
+  subroutine kern2(v, f)
+    real, intent(inout) :: v(:, :)
+    real, intent(in) :: f
+    integer :: i, j
+    do j=1,size(v, 2)
+      do i=1,size(v, 1)
+        v(i, j) = v(i, j)*f + real(i) + 10.0*real(j)
+      end do
+    end do
+  end subroutine kern2
+
+  subroutine drv(n1, n2, n3, a, y)
+    integer, intent(in) :: n1, n2, n3
+    real, intent(inout) :: a(n1, n2, n3)
+    real, intent(in) :: y
+{dbody}
+  end subroutine drv
+end module h3
+"""
+
+
+def argshape3(p):
+    drv, ker = _routine(p, 'drv'), _routine(p, 'kern2')
+    a = ArgumentArrayShapeAnalysis()
+    a.apply(drv, role='driver')
+    a.apply(ker, role='kernel')
+    t = ExplicitArgumentArrayShapeTransformation()
+    t.apply(ker, role='kernel')
+    t.apply(drv, role='driver')
+    p.text = None
+
+
 def cases():
     out = []
     S = [{'n': 3}, {'n': 4}]
+    S3 = [{'n1': 2, 'n2': 3, 'n3': 2}, {'n1': 3, 'n2': 2, 'n3': 2}]
+    for nm, body in (('last-fixed', '    call kern2(a(:, :, n3), y)'), ('first-fixed', '    call kern2(a(1, :, :), y)'),
+                     ('middle-fixed', '    call kern2(a(:, 2, :), y)'), ('sub-ranges', '    call kern2(a(1:n1, 2:n2, 1), y)')):
+        out.append(Case(f'argshape/section-{nm}', SH3.format(dbody=body), 'drv', S3, argshape3, 'argument-shape'))
     out.append(Case('dta/components-rw', DT.format(kbody='    do i=1,n\n      x(i) = x(i)*st%s + st%v(min(i, 3)) + ro%w(1)\n    end do\n    st%s = st%s + ro%k\n    st%v(2) = x(1)',
                                                   dbody='    call kern(n, x, st, ro)'), 'drv', S, dta, 'derived-type-args'))
     out.append(Case('dta/nested-component', DT.format(kbody='    st%g%w(1) = st%g%w(2) + x(1)\n    x(2) = st%g%k*ro%w(3)\n    st%g%k = st%g%k + 1',
